@@ -1,8 +1,23 @@
 import GormModel.Drv.Util
+import GormModel.Drv.C02
 import GormModel.Gen.GuardWhereFacts
+import GormModel.Model.Scopes
+import GormModel.Model.UpdateKeys
+import GormModel.Model.GuardMode
+import GormModel.Model.AssocGuard
 open Lean
 namespace Gorm.Drv
 
+namespace HC09
+
+def parseScope (j : Json) : Option Scope := do
+  let conds ← (← jArr? (j.getObjValD "conds")).toList.mapM jNat?
+  let derive ← jBool? (j.getObjValD "derive")
+  some { conds := conds, derive := derive }
+
+end HC09
+
+open HC02 in
 /-- line-protocol handler for C09 (ops are JSON arrays `[opname, args…]`); returns `none` for ops it does not own -/
 def handleC09 (op : String) (args : Array Json) : Option Json := do
   match op with
@@ -10,6 +25,49 @@ def handleC09 (op : String) (args : Array Json) : Option Json := do
     -- the regenerated facts that tell whether the repair of F26-C09-empty-where-entry is present in the tree under test
     some (Json.mkObj [("guardRejectsEmptyWhere", Json.bool Gen.guardRejectsEmptyWhere),
       ("guardFnFound", Json.bool Gen.guardFnFound), ("guardSoftBranchFound", Json.bool Gen.guardSoftBranchFound)])
+  | "c09.scopes" =>
+    -- ["c09.scopes", threaded|null, [init ids], [{conds:[ids], derive:bool}…]] -> WHERE ids of the statement the finisher
+    -- continues with (null = the loop shape of the tree under test, Gen.scopesThreaded)
+    let threaded := (jBool? (arg args 1)).getD Gen.scopesThreaded
+    let init ← (← jArr? (arg args 2)).toList.mapM jNat?
+    let scopes ← (← jArr? (arg args 3)).toList.mapM HC09.parseScope
+    let r := execScopes threaded scopes init
+    some (Json.mkObj [("where", natListJ r.ret), ("orig", natListJ r.orig), ("retIsOrig", Json.bool r.retIsOrig),
+      ("threaded", Json.bool threaded)])
+  | "c09.guardruns" =>
+    -- ["c09.guardruns", dryRun, prepareStmt, skipHooks, skipDefaultTx, inTx, allowGlobal, hasErr] -> does the guard's test run?
+    let m : Mode := { dryRun := ← jBool? (arg args 1), prepareStmt := ← jBool? (arg args 2), skipHooks := ← jBool? (arg args 3),
+                      skipDefaultTx := ← jBool? (arg args 4), inTx := ← jBool? (arg args 5) }
+    some (Json.bool (guardRuns Gen.guardOuterConds m (← jBool? (arg args 6)) (← jBool? (arg args 7))))
+  | "c09.updrejected" =>
+    -- ["c09.updrejected", softFilter|null, [modelKey atoms], allowGlobal, [ops], [valueKey atoms], same, mode(5 bools)]
+    --   -> {rejected, keys}: the update's decision from the PER-BLOCK transcription of ConvertToAssignments
+    --   (Model/UpdateKeys.lean, code = regenerated facts) in the given mode
+    let soft ← match arg args 1 with
+      | Json.null => some none
+      | v => (parseAtom v).map some
+    let mk ← parseAtoms (arg args 2)
+    let ag ← jBool? (arg args 3)
+    let ops ← (← jArr? (arg args 4)).toList.mapM parseStmtOp
+    let vk ← parseAtoms (arg args 5)
+    let same ← jBool? (arg args 6)
+    let mj ← jArr? (arg args 7)
+    let m : Mode := { dryRun := ← jBool? (arg mj 0), prepareStmt := ← jBool? (arg mj 1), skipHooks := ← jBool? (arg mj 2),
+                      skipDefaultTx := ← jBool? (arg mj 3), inTx := ← jBool? (arg mj 4) }
+    let cfg : StmtCfg := { soft := soft, modelKey := mk, allowGlobal := ag }
+    let s := stmtRun cfg StmtState.fresh ops
+    let rej := guardRuns Gen.guardOuterConds m ag false &&
+      finRejectedUpd Gen.guardRejectsEmptyWhere updateKeyCodeOfFacts { cfg with allowGlobal := false } s vk same
+    some (Json.mkObj [("rejected", Json.bool rej), ("keys", natJ (updateKeysOf updateKeyCodeOfFacts mk vk same).length)])
+  | "c09.sentbefore" =>
+    -- ["c09.sentbefore", "update"|"delete", belongsToValues, selectedM2M] -> statements sent before the guard's handler
+    let pl ← jStr? (arg args 1)
+    let i : AssocInput := { belongsToValues := ← jNat? (arg args 2), selectedM2M := ← jNat? (arg args 3) }
+    some (natJ (sentBeforeGuard (pipelineRegs pl) (if pl == "update" then "Update" else "Delete") i))
+  | "c09.r4facts" =>
+    some (Json.mkObj [("scopesThreaded", Json.bool Gen.scopesThreaded), ("guardOuterConds", strListJ Gen.guardOuterConds),
+      ("guardReads", strListJ Gen.guardReads), ("updateValueKeyGuard", strListJ Gen.updateValueKeyGuard),
+      ("updateWhereSites", natJ Gen.updateWhereSites.length), ("guardBypassReturns", natJ Gen.guardBypassReturns.length)])
   | _ => none
 
 end Gorm.Drv
